@@ -7,7 +7,7 @@ from harness.pyval import enc, dec
 PID = 'C13'
 RULE = ('op in {map, starmap, filter, scan} whose user function raises on a chosen subset of the items (first, last, '
         'consecutive, all, random), followed by one of {ignore, error.map, error router, nothing}, optionally followed by '
-        'further (stateful) operators and optionally inside group_by/roll inner pipelines; 1-4 interleaved keys; the same pipeline object, error router and dead-letter observable are also subscribed a second and third time and must behave as the first time. Oracle: the '
+        'further (stateful) operators and optionally inside group_by/roll inner pipelines; 1-4 interleaved keys; exception classes of every kind (TypeError ... RecursionError, MemoryError, KeyError, AssertionError, StopIteration); a scale family with more than a thousand failing items through each handler; the same pipeline object, error router and dead-letter observable are also subscribed a second and third time and must behave as the first time. Oracle: the '
         'same pipeline with the NON-raising function on the trace from which the failing items were removed (ignore / '
         'router), with the mapped item in place (error.map), the exceptions in order on the dead-letter observable '
         'which completes with the stream (router), on_error at the failing step (no handler); exactly one mux error per '
@@ -19,7 +19,8 @@ def gen_core(r):
     """(node with raising function, node with the same function not raising, item type out)"""
     bad = ['comp', ['mod', r.randint(2, 4)], ['eq', enc(r.randint(0, 1))]] if r.random() < 0.7 else \
         r.choice([['gt', enc(r.randint(3, 9))], ['lt', enc(r.randint(0, 4))], ['const', enc(True)]])
-    code = r.choice([1, 2, 3, 4])
+    # exception classes of every kind a user function may raise (the model treats the class as an opaque code)
+    code = r.choice([1, 2, 3, 4, 1, 2, 6, 7, 8, 10, 12])
     k = r.choice(['map', 'filter', 'scan', 'scan', 'map'])
     if k == 'map':
         f = r.choice([['add', enc(1)], ['mul', enc(3)], ['id']])
@@ -67,6 +68,27 @@ def generate(rng, tier):
             trace = [(['n', e[1], enc(None)] if e[0] == 'n' and rng.random() < 0.35 else e) for e in trace]
         cases.append({'ast': ast, 'clean': ast_c, 'pre': pre, 'head': pre + [raising] + h, 'post': post, 'bad': bad, 'code': code, 'handler': handler, 'ctx': ctx,
                       'trace': trace, 'simple': ctx == 'top' and not pre})
+    for si in range({'quick': 8, 'thorough': 150, 'search': 2}[tier]):
+        # scale: more than a thousand failing items through one handler, on one or two long keys or hundreds of keys
+        raising, clean, bad, code = gen_core(rng)
+        bad = rng.choice([['const', enc(True)], ['comp', ['mod', 2], ['eq', enc(1)]], bad])
+        if raising[0] == 'scan':
+            raising[1][1] = bad
+        else:
+            raising[1][1][1] = bad
+        handler = ['errmap', 'ignore', 'route', 'none'][si % 4]
+        h = {'ignore': [['ignore']], 'errmap': [['errmap', ['mul', enc(-1)]]], 'route': [['route']], 'none': []}[handler]
+        post = [] if handler in ('none', 'errmap') else rng.choice([[], [['count', 0]]])
+        trace = muxgen.gen_trace_scale(rng, rng.choice(['long', 'long2', 'long2', 'many']))
+        from harness.pyval import py_fn as _pf
+        nfail = sum(1 for e in trace if e[0] == 'n' and _pf(bad)(dec(e[2])))
+        if nfail < 1100:
+            k0 = trace[0][1]
+            extra = [['n', k0, enc(i % 7)] for i in range(2600)]
+            dpos = next(i for i, e in enumerate(trace) if e[0] == 'd' and e[1] == k0)
+            trace = trace[:dpos] + extra + trace[dpos:]
+        cases.append({'ast': [raising] + h + post, 'clean': [clean] + post, 'pre': [], 'head': [raising] + h, 'post': post, 'bad': bad,
+                      'code': code, 'handler': handler, 'ctx': 'top', 'trace': trace, 'simple': True, 'scale': True})
     return cases
 
 
